@@ -27,7 +27,7 @@ MODULES = ["BMV.Props.C17"]
 EXE = "oracle-c17"
 GEN = os.path.join(vlib.LEAN, "BMV", "Gen", "GoStmts.lean")
 KINDS = ["proc", "disp", "emu", "req", "pool"]
-SIM_MODES = ("seq", "seqerr", "par", "fit", "raw", "seqdyn", "pardyn", "fiterr", "spserr")
+SIM_MODES = ("seq", "seqerr", "par", "fit", "raw", "seqdyn", "pardyn", "fiterr", "spserr", "seqdly", "pardly")
 REGS = ("types", "matchers", "opcodes")   # process-wide registries: bmnumbers.AllTypes/AllMatchers, procbuilder.Allopcodes
 POOL_DRIVER = os.path.join(vlib.HARNESS, "cmd", "c17", "simfinetune_driver_test.go.txt")
 CALIBRATION = ("reqhold", "reqrelease")   # the harness itself keeps servers open, then closes them
@@ -80,7 +80,7 @@ def parse(impl_text, model_text):
 def spec_of(b):
     d = b["b"]
     if d["mode"] == "pool":
-        return "pool,%s:%s:%s:%s:%s" % (d["W"], d["n"], d["P"], d["R"], d.get("X", "0"))
+        return "pool,%s:%s:%s:%s:%s:%s" % (d["W"], d["n"], d["P"], d["R"], d.get("X", "0"), d.get("D", "0"))
     mach = d.get("mach", "-")
     if d["mode"] not in SIM_MODES:
         mach = "-"
@@ -188,6 +188,9 @@ def pool_spec(seed, thorough):
     for W in (1, 4):
         out.append("%d:%d:%d:%d:%d" % (W, 5, r.randint(1, 2), r.randint(1, 4), r.randint(1, 3)))
         out.append("%d:%d:%d:0:%d" % (W, 3, r.randint(1, 2), r.randint(0, 2)))
+    # FitnessEnv.Debug (simfinetune -d): the progress output must not leave anything behind either
+    for W in (1, 4, 0):
+        out.append("%d:%d:%d:%d:0:1" % (W, 5, r.randint(1, 2), r.randint(1, 3)))
     return ",".join(out)
 
 
@@ -221,7 +224,7 @@ def shrink(hbin, b, cfg, listed):
     cands = []
     if mode == "pool":
         try:
-            impl, model = run_pool(build_pool_driver(), "%s:1:1:%s:%s" % (d["W"], min(1, int(d["R"])), d.get("X", "0")))
+            impl, model = run_pool(build_pool_driver(), "%s:1:1:%s:%s:%s" % (d["W"], min(1, int(d["R"])), d.get("X", "0"), d.get("D", "0")))
             _, bs, _ = parse(impl, model)
             if bs and bs[0]["obs"] is not None and judge(cfg, bs[0], listed)[0] == "leak":
                 return bs[0], spec_of(bs[0]), judge(cfg, bs[0], listed)[1]
